@@ -457,7 +457,6 @@ Proof.
   all: cbn [bind]; unfold is_eol_or_eof, is_identifier; cbn [ttype tvalue].
   all: change (tIDENT =? tEOL) with false; change (tIDENT =? tEOF) with false; change (tIDENT =? tIDENT) with true; cbn [orb negb].
   all: rewrite (split_once_app 61 (svcb_key_text k) []) by exact E61.
-  all: replace (is_nil (svcb_key_text k)) with false by (destruct (svcb_key_text k); [congruence|reflexivity]).
   all: cbn [is_nil]; rewrite get_wl_quote.
   all: destruct (get0_quoted_body_q false [] body rest eq_refl Hq) as (he & EQ); cbn [app] in EQ; rewrite EQ.
   all: cbn [bind fst snd]; unfold is_quoted; cbn [ttype tvalue]; change (tQUOTED =? tQUOTED) with true; cbn [negb].
